@@ -70,6 +70,7 @@ type interp struct {
 	depth  int
 	hits   map[string]int64
 
+	tags     []string // cause labels for violation grouping
 	loopVars [][]string // names bound by enclosing loop headers, innermost last; nil entries for non-loop blocks
 }
 
@@ -80,6 +81,15 @@ func (in *interp) tick() {
 	if in.steps > stepBudget {
 		panic(nontermErr{})
 	}
+}
+
+func (in *interp) tag(s string) {
+	for _, t := range in.tags {
+		if t == s {
+			return
+		}
+	}
+	in.tags = append(in.tags, s)
 }
 
 func (in *interp) hit(s string) {
